@@ -115,13 +115,15 @@ func isLibFrame(f string) bool {
 	if strings.HasPrefix(f, "golang.org/x/") {
 		return true
 	}
-	first := f
-	if i := strings.IndexAny(f, "/.("); i >= 0 {
-		first = f[:i]
-		if f[i] == '/' {
-			return !strings.Contains(first, ".")
-		}
+	// the import path ends before the receiver / argument list
+	path := f
+	if i := strings.Index(path, "("); i >= 0 {
+		path = path[:i]
 	}
-	// no slash before the first dot: "runtime.foo", "sync.(*Mutex).Lock", "main.main"
-	return first != "main"
+	if i := strings.Index(path, "/"); i >= 0 {
+		// "crypto/hmac.New", "github.com/x/y.F": standard library iff the first element has no dot
+		return !strings.Contains(path[:i], ".")
+	}
+	// no slash: "runtime.foo", "sync.", "main.main"
+	return !strings.HasPrefix(path, "main.")
 }
